@@ -546,6 +546,12 @@ Definition tree_sequence_gate (t : tables) : res Z :=
    tables are the input. *)
 Definition load_gate (t : tables) : res Z := check t.
 
+(* tskit.TreeSequence.load_tables(tables, build_indexes=b) = tsk_treeseq_init(copy of tables,
+   b ? TSK_TS_INIT_BUILD_INDEXES : 0): with the option the index of the COPY is rebuilt
+   unconditionally (trees.c l.455-460) before the gate; without it the gate alone. *)
+Definition load_tables_gate (build : bool) (t : tables) : res Z :=
+  if build then do t' <- build_index t; check t' else check t.
+
 Definition res_eqb (a b : res Z) : bool :=
   match a, b with
   | Ok x, Ok y => x =? y
